@@ -113,6 +113,52 @@ Theorem C15_letters : forall left right x,
 Proof. exact classify_spec. Qed.
 Print Assumptions C15_letters.
 
+(* whole frames.  [ftag] is the opaque payload of a frame: every attribute of the System
+   object other than order[0] and vel_rev (the check encodes ALL of vars(frame) into it), so
+   each statement below holds for arbitrary contents of those other fields. *)
+Theorem C15_system_copy_whole : forall o f,
+  (ford (copy_frame o f) = ford f /\ ftag (copy_frame o f) = ftag f /\ frev (copy_frame o f) = frev f) /\
+  foid (copy_frame o f) = o.
+Proof. exact copy_frame_whole. Qed.
+Print Assumptions C15_system_copy_whole.
+
+Theorem C15_reverse_only_flag : forall next p rv,
+  (plen p <= maxlen p)%nat ->
+  map ford (pts (reverse next p rv)) = rev (map ford (pts p)) /\
+  map ftag (pts (reverse next p rv)) = rev (map ftag (pts p)) /\
+  map frev (pts (reverse next p rv)) = rev (map (fun f => xorb rv (frev f)) (pts p)).
+Proof. exact reverse_only_flag. Qed.
+Print Assumptions C15_reverse_only_flag.
+
+Theorem C15_reverse_twice_whole : forall n1 n2 p rv,
+  (plen p <= maxlen p)%nat ->
+  Forall2 (fun a b => ford a = ford b /\ ftag a = ftag b /\ frev a = frev b)
+          (pts (reverse n2 (reverse n1 p rv) rv)) (pts p).
+Proof. exact reverse_twice_whole. Qed.
+Print Assumptions C15_reverse_twice_whole.
+
+Theorem C15_copy_whole : forall next p,
+  (plen p <= maxlen p)%nat ->
+  Forall2 (fun a b => ford a = ford b /\ ftag a = ftag b /\ frev a = frev b)
+          (pts (copy next p)) (pts p).
+Proof. exact copy_whole. Qed.
+Print Assumptions C15_copy_whole.
+
+Theorem C15_paste_keeps_frames : forall back forw ov m k x,
+  nth_error (pts (paste back forw ov (Some m))) k = Some x ->
+  nth_error (rev (pts back) ++ forw_part forw ov) k = Some x.
+Proof. exact paste_keeps_frames. Qed.
+Print Assumptions C15_paste_keeps_frames.
+
+Theorem C15_iadd_whole : forall next p other,
+  exists added,
+    pts (iadd next p other) = pts p ++ added /\
+    Forall2 (fun a b => ford a = ford b /\ ftag a = ftag b /\ frev a = frev b)
+            added (firstn (maxlen p - plen p) (pts other)) /\
+    forall x, In x added -> (next <= foid x)%nat.
+Proof. exact iadd_whole. Qed.
+Print Assumptions C15_iadd_whole.
+
 (* non-vacuity: a concrete path meets the hypotheses and exercises truncation *)
 Example C15_example :
   let f o t := mkF o t false 0 in
@@ -120,5 +166,7 @@ Example C15_example :
   let forw := mkP [f 3 1; f 4 4; f 9 5] 10 5 in
   map ford (pts (paste back forw true (Some 4%nat))) = [1; 2; 3; 4] /\
   (plen back <= maxlen back)%nat /\
-  check_interfaces (paste back forw true (Some 10%nat)) [2; 4; 8] <> None.
+  check_interfaces (paste back forw true (Some 10%nat)) [2; 4; 8] <> None /\
+  map ftag (pts (reverse 7 back true)) = [3; 2; 1] /\ map frev (pts (reverse 7 back true)) = [true; true; true] /\
+  map foid (pts (copy 7 back)) = [7; 8; 9]%nat.
 Proof. cbn. repeat split; try lia; discriminate. Qed.
